@@ -817,6 +817,18 @@ class Session:
             finally:
                 self.ltm.abort()
                 c.close()
+            if self.case.get('reset', True):
+                # the same Connection object again, after ZODB.Connection.resetCaches(): references inside
+                # records and get(oid) must still meet in one cache (and, at the next commit of the main
+                # session, both views must follow the invalidations)
+                ZODB.Connection.resetCaches()
+                c2 = self.dbs[0].open(transaction_manager=self.ltm)
+                self.count('load:reset' + ('' if c2 is c else '-other-connection'))
+                try:
+                    res.append(self.real_walk(c2, keys) + (None,))
+                finally:
+                    self.ltm.abort()
+                    c2.close()
         else:
             dbs = self.fresh_dbs()
             try:
@@ -1229,7 +1241,7 @@ def gen_case(rng, thorough=False):
     case = dict(ndb=ndb, xrefs=[1 if rng.random() < 0.93 else 0, 1],
                 oids=[gen_oids(rng, 12), gen_oids(rng, 8), []], ops=[],
                 legacy=rng.random() < 0.5, legacy_weak=rng.random() < 0.5, fresh_each=rng.random() < 0.5,
-                storage='file' if rng.random() < 0.12 else 'mapping')
+                storage='file' if rng.random() < 0.12 else 'mapping', reset=rng.random() < 0.6)
     ops = case['ops']
     weak_p = rng.choice([0.0, 0.1, 0.1, 0.25])
     counter = [0]
@@ -1303,6 +1315,13 @@ CORPUS = [
         ['set', 'p', 'a', ['r', 'c1']], ['set', 'p', 'b', ['r', 'c2']],
         ['root', 0, 'p', 'p'], ['poison', 'c2'], ['commit'], ['unpoison', 'c2'],
         ['root', 0, 'p', 'p'], ['commit']]),
+    # a pooled connection reopened after ZODB.Connection.resetCaches(): one cache for references and get()
+    dict(ndb=1, xrefs=[1, 1], oids=[[], [], []], legacy=False, fresh_each=False, reset=True, storage='file', ops=[
+        ['new', 'a', 'N'], ['new', 'b', 'N'], ['new', 'shared', 'N'],
+        ['set', 'a', 'kids', ['l', [['r', 'shared']]]], ['set', 'b', 'kids', ['l', [['r', 'shared']]]],
+        ['set', 'shared', 'kids', ['l', [['r', 'a']]]], ['root', 0, 'a', 'a'], ['root', 0, 'b', 'b'], ['commit'],
+        ['set', 'a', 'value', ['a', 2]], ['set', 'shared', 'value', ['a', 2]], ['commit'],
+        ['set', 'shared', 'value', ['a', 3]], ['commit']]),
     dict(ndb=2, xrefs=[1, 1], oids=[['6162636465666768', '3030303030303031'], ['6162636465666768'], []],
          legacy=True, fresh_each=True, ops=[
         ['new', 'a', 'N'], ['new', 'b', 'A'], ['new', 'c', 'M'], ['new', 'x', 'N'], ['new', 'y', 'A'],
